@@ -150,3 +150,24 @@ PROPS["C01"] = {
          "thorough": {"checks": 6000, "shards": 16, "timeout": 1700}},
     ],
 }
+
+PROPS["C02"] = {
+    "title": "Deterministic execution: same block + same prior state => same roots everywhere",
+    "level": "exploration",
+    "technique": "differential PBT (rapid): producer path vs repeated validator-path executions on a second node (re-randomised map order / goroutine schedule), plus metamorphic re-production without the skipped transactions",
+    "level_text": ("Generated blocks biased towards several staking/voting transactions on the same tallies and voting-power buckets, over all "
+                   "hardfork versions, fee regimes and with the DPoS voting reward; each block is produced on node P, re-executed k times "
+                   "(3 quick, 8 thorough; thorough also varies GOMAXPROCS and runs under the race detector) in verify-only mode on node V and then "
+                   "connected there: state root, receipts root and receipts bytes must equal the producer's every time."),
+    "level_note": "Nondeterminism is searched for dynamically only (Go map order, scheduling); wall-clock or RNG use that happens to agree on all repetitions is not seen. Several simulated nodes share one process: process-wide parameters and the in-memory voting-power ranking are reloaded from the node's own state before each execution, as a freshly started node does (the ranking's agreement with the state is C15's subject).",
+    "rule": ("a case = configuration + 1-5 produced blocks; non-trivial = some block holds >=2 governance transactions touching the same issue "
+             "(votes / stake of voters) or the producer skipped >=1 candidate; distinct = distinct (configuration, per-block tx kinds and senders)."),
+    "assumptions": ["stub VM stands in for LuaJIT"],
+    "units": [
+        {"pkg": "verifx/c02", "run": "^TestC02Determinism$",
+         "quick": {"checks": 150, "shards": 10, "timeout": 300, "env": {"VERIF_C02_REPS": 3}},
+         "thorough": {"checks": 2500, "shards": 12, "timeout": 1700, "env": {"VERIF_C02_REPS": 8}}},
+        {"pkg": "verifx/c02", "run": "^TestC02Determinism$", "quick": {"skip": True},
+         "thorough": {"checks": 300, "shards": 4, "timeout": 1700, "race": True, "env": {"VERIF_C02_REPS": 4, "VERIF_GOMAXPROCS": 4}}},
+    ],
+}
